@@ -6,15 +6,15 @@ A section inherits the indentation its output has when `Output.section()` create
 (`with output.indent(n): output.section()`), and `section.indent(n)` / `section.increment_indent(n)`
 change it later.  With indentation `n`
 
-* `SectionOutput.add_content` records EVERY line of the text behind `n` blanks (also an empty one) and
-  counts the rows of the padded line,
-* `Output.write(..., with_indent=True)` puts every NON-EMPTY line behind `n` blanks on the stream
-  (an empty line stays empty),
+* `SectionOutput.add_content` records every NON-EMPTY line of the text behind `n` blanks, an empty line
+  as it is (D38 repaired: before, the empty line was recorded behind the blanks as well and counted as
+  `⌈n/w⌉` rows although one empty row was shown - `writeSecPadAll`, counterexample in Props/C15),
+* `Output.write(..., with_indent=True)` puts the text on the stream with the same rule,
 * the erased contents of newer sections are written back as recorded (`with_indent=False`).
 
-So an operation on a section of indentation `n` is the operation of the base model on the padded
-lines (`padOp`), except that an empty line is printed without its blanks (`emitLine`).  `flat` turns
-an indented history into the base history it simulates (`Props.C15.indent_simulates`).
+So an operation on a section of indentation `n` is the operation of the base model on the indented
+lines (`padOp`).  `flat` turns an indented history into the base history it simulates
+(`Props.C15.indent_simulates`).
 -/
 namespace Clikit.Section
 open Clikit.Term
@@ -22,7 +22,8 @@ open Clikit.Term
 /-- `n` blanks in front of a line. -/
 def pad (n : Nat) (l : Str) : Str := List.replicate n ' ' ++ l
 
-/-- What `Output.write` sends for one line at indentation `n`: `(" " * n + s) if s else s`. -/
+/-- One line at indentation `n`, as `Output.write` sends it and `add_content` records it:
+`(" " * n + s) if s else s`. -/
 def emitLine (n : Nat) (l : Str) : Str := if l.isEmpty then l else pad n l
 
 /-- Operations of a history with indentation. -/
@@ -35,15 +36,22 @@ inductive IOp where
 /-- The base operation an operation on a section of indentation `n` amounts to: the recorded
 lines carry the indentation. -/
 def padOp (n : Nat) : Op → Op
-  | .write i ls => .write i ((normLines ls).map (pad n))
-  | .overwrite i ls => .overwrite i ((normLines ls).map (pad n))
+  | .write i ls => .write i ((normLines ls).map (emitLine n))
+  | .overwrite i ls => .overwrite i ((normLines ls).map (emitLine n))
   | o => o
 
-/-- `write` at indentation `n`: state as `writeSec` on the padded lines; on the stream the fresh
-lines go through `emitLine`. -/
+/-- `write` at indentation `n`: `add_content` records the indented lines and counts their rows, the same
+indented lines go on the stream. -/
 def writeSecI (w : Nat) (newer : List Sec) (s : Sec) (n : Nat) (lines : List Str) : Sec × List Cmd :=
+  let ls := (normLines lines).map (emitLine n)
+  ({ content := s.content ++ ls, rows := s.rows + (ls.map (countRows w)).sum },
+   popCmds newer 0 ++ ls.map .print ++ reprint newer)
+
+/-- The rule BEFORE the repair of D38: every line, also an empty one, was recorded (and its rows counted)
+behind the blanks, while the stream got the empty line without them. -/
+def writeSecPadAll (w : Nat) (newer : List Sec) (s : Sec) (n : Nat) (lines : List Str) : Sec × List Cmd :=
   let ls := normLines lines
-  ((writeSec w newer s (ls.map (pad n))).1,
+  ({ content := s.content ++ ls.map (pad n), rows := s.rows + ((ls.map (pad n)).map (countRows w)).sum },
    popCmds newer 0 ++ ls.map (fun l => .print (emitLine n l)) ++ reprint newer)
 
 def overwriteSecI (w : Nat) (newer : List Sec) (s : Sec) (n : Nat) (lines : List Str) : Sec × List Cmd :=
@@ -112,20 +120,5 @@ def flat : List Nat → List IOp → List Op
   | ind, .create n :: r => .create :: flat (ind ++ [n]) r
   | ind, .indent i n :: r => flat (setAt n i ind) r
   | ind, .op o :: r => padOp (indOf ind (target o)) o :: flat ind r
-
-/-- No empty line is written at a positive indentation (then the stream of the indented history is
-the stream of the base history, byte for byte). -/
-def blankSafeOp (n : Nat) (o : Op) : Bool :=
-  n == 0 || (opLines o).all (fun l => !l.isEmpty)
-
-def blankSafe : List Nat → List IOp → Bool
-  | _, [] => true
-  | ind, .create n :: r => blankSafe (ind ++ [n]) r
-  | ind, .indent i n :: r => blankSafe (setAt n i ind) r
-  | ind, .op o :: r => blankSafeOp (indOf ind (target o)) o && blankSafe ind r
-
-/-! Code fact (pending finding): an empty line written at indentation `n` is recorded as `n` blanks, so
-`⌈n/w⌉` rows are counted while one row is shown; the counter is exact only as long as `n ≤ w`.  The model
-records and counts what the code does; `blankSafe` keeps such lines out of the screen theorem. -/
 
 end Clikit.Section
